@@ -436,7 +436,15 @@ func Encode(req int, op Op, nowNs int64) *Wire {
 			for _, kv := range rotate(s.Labels, s.Perm) {
 				rl.Resource.Attributes = append(rl.Resource.Attributes, &otlpCommon.KeyValue{Key: kv[0], Value: &otlpCommon.AnyValue{Value: &otlpCommon.AnyValue_StringValue{StringValue: kv[1]}}})
 			}
+			noResource := si%4 == 3
+			if noResource {
+				// resource and scope are optional members of the message
+				rl.Resource = nil
+			}
 			sl := &otlpLogs.ScopeLogs{Scope: &otlpCommon.InstrumentationScope{Name: "sim"}}
+			if si%2 == 1 {
+				sl.Scope = nil
+			}
 			otlpKey := func(k string) string {
 				k = regexp.MustCompile(`[^a-zA-Z0-9_]`).ReplaceAllString(k, "_")
 				if k == "" || (k[0] >= '0' && k[0] <= '9') {
@@ -450,12 +458,21 @@ func Encode(req int, op Op, nowNs int64) *Wire {
 				rec := &otlpLogs.LogRecord{TimeUnixNano: uint64(ee.ts), Body: &otlpCommon.AnyValue{Value: &otlpCommon.AnyValue_StringValue{StringValue: ee.line}}}
 				exp := map[string]string{}
 				for _, kv := range s.Labels {
-					exp[otlpKey(kv[0])] = kv[1]
+					if !noResource {
+						exp[otlpKey(kv[0])] = kv[1]
+					}
+				}
+				if ei%4 == 3 {
+					// typed attribute values: rendered as text
+					rec.Attributes = append(rec.Attributes,
+						&otlpCommon.KeyValue{Key: "http.status", Value: &otlpCommon.AnyValue{Value: &otlpCommon.AnyValue_IntValue{IntValue: 503}}},
+						&otlpCommon.KeyValue{Key: "retry", Value: &otlpCommon.AnyValue{Value: &otlpCommon.AnyValue_BoolValue{BoolValue: true}}})
+					exp["http_status"], exp["retry"] = "503", "true"
 				}
 				// records of one scope differ in their own attributes and severity
 				switch ei % 3 {
 				case 0:
-					rec.Attributes = []*otlpCommon.KeyValue{{Key: "rec.kind", Value: &otlpCommon.AnyValue{Value: &otlpCommon.AnyValue_StringValue{StringValue: fmt.Sprintf("k%d", ei%2)}}}}
+					rec.Attributes = append(rec.Attributes, &otlpCommon.KeyValue{Key: "rec.kind", Value: &otlpCommon.AnyValue{Value: &otlpCommon.AnyValue_StringValue{StringValue: fmt.Sprintf("k%d", ei%2)}}})
 					exp["rec_kind"] = fmt.Sprintf("k%d", ei%2)
 				case 1:
 					rec.SeverityText = "warn"
